@@ -44,7 +44,7 @@ func (c *Ctx) DiffCheck(cfg *DiffConfig) {
 			hi = len(cfg.Grammars)
 		}
 		c.diffChunk(cfg, lo, hi)
-		if c.NViol() > 25 {
+		if c.NViol() > 25 || c.enoughAlready() {
 			return
 		}
 	}
